@@ -83,6 +83,16 @@ Theorem C16_primitive_model_leak_refuted :
 Proof. exact prim_leak_refuted. Qed.
 Print Assumptions C16_primitive_model_leak_refuted.
 
+(* The second defect found (fixed in textX): before the fix a nested load that fails to parse (an imported
+   file) ran the except-path restore although it had not instrumented anything, un-instrumenting the classes
+   of the enclosing load; with a global repository and a user class on the root rule the half-built model
+   stayed cached and the next load of the file returned it. Witness: corpus/C16/stale_repo_after_import_syntax_error.json. *)
+Theorem C16_unguarded_restore_refuted :
+  result unguarded_facts wit_create wit_load_repo (final unguarded_facts wit_create wit_load_repo [New 0 wit_cfg_repo; Load 0 3]) (Load 0 3)
+  <> result unguarded_facts wit_create wit_load_repo (final unguarded_facts wit_create wit_load_repo [New 0 wit_cfg_repo]) (Load 0 3).
+Proof. exact unguarded_restore_refuted. Qed.
+Print Assumptions C16_unguarded_restore_refuted.
+
 (* and clearing the memo caches in `finally` is necessary *)
 Theorem C16_uncleared_caches_refuted :
   result noclear_facts wit_create wit_load (final noclear_facts wit_create wit_load [New 0 wit_cfg_memo; Load 0 1]) (Load 0 2)
